@@ -36,7 +36,9 @@ type Script struct {
 	HoldsPipes bool       `json:"holds_pipes,omitempty"` // (child) keeps the parent's stdout/stderr open
 	ReadErrAt  int        `json:"read_err_at,omitempty"` // F6: stdout read fails with EIO once this many bytes were read (0: never)
 	ChunkMode  int        `json:"chunk_mode,omitempty"`  // 0 all available, 1 PRNG-chosen sizes, 2 byte by byte
-	Daemonize  bool       `json:"daemonize,omitempty"`   // parent exits after LifeMs with Exit, children keep running
+	KillToken  string     `json:"kill_token,omitempty"`  // (shutdown commands) at AtKillMs send KillSig to the live commands with this token
+	KillSig    int        `json:"kill_sig,omitempty"`
+	KillAtMs   int        `json:"kill_at_ms,omitempty"`
 }
 
 // SpawnReq is what the resolver sees.
@@ -154,6 +156,22 @@ func (w *World) spawn(token string, sc *Script, ppid, pgid int, newGroup bool, s
 func (w *World) life(p *Proc) {
 	sc := p.Script
 	start := time.Now()
+	if sc.KillToken != "" {
+		if sc.KillAtMs > 0 {
+			simsync.Sleep(simsync.SiteHarness, time.Duration(sc.KillAtMs)*time.Millisecond)
+		}
+		w.enter()
+		for _, q := range w.Procs {
+			if q.Alive && q.Token == sc.KillToken && q != p {
+				select {
+				case q.sigCh <- sc.KillSig:
+				default:
+				}
+				simlog.Add(simlog.Event{Kind: "os.kill", Pid: q.Pid, N: sc.KillSig, A: fmt.Sprintf("delivered: %d", q.Pid), B: "by " + p.Token})
+			}
+		}
+		w.leave()
+	}
 	next := 0
 	code, signalled, by := sc.Exit, false, 0
 	emit := func(ch OutChunk) {
